@@ -62,7 +62,16 @@ def gen_items(rng, depth, uid, in_ifc=False):
       elif base < 0.7 and not in_ifc: el = ("comp", gen_items(rng, depth - 1, uid))
       else: el = ("ifc", gen_items(rng, max(0, depth - 1), uid, in_ifc=True))
       dims = [rng.randrange(1, 4) for _ in range(rng.choice([1, 1, 2, 3]))]
-      it = ("list", dims, el)
+      holes = []
+      if rng.random() < 0.2:
+        # a sparse list: some positions (possibly the first) hold None instead of a hardware object
+        import itertools
+        allidx = list(itertools.product(*[range(d) for d in dims]))
+        if len(allidx) >= 2:
+          holes = [list(x) for x in rng.sample(allidx, rng.randrange(1, len(allidx)))]
+          if rng.random() < 0.6 and list(allidx[0]) not in holes: holes.append(list(allidx[0]))
+          if len(holes) >= len(allidx): holes = holes[:len(allidx) - 1]
+      it = ("list", dims, el, holes)
     items.append((nm, it))
   return items
 
@@ -155,8 +164,11 @@ def make_classes():
       post(getattr(holder, nm))
       return
     dims, el = it[1], it[2]
+    holes = it[3] if len(it) > 3 else []
     posts = []
     def mkl(d, idxs):
+      if d == len(dims) and idxs in holes:
+        return None
       if d == len(dims):
         suffix = "".join(f"[{i}]" for i in idxs)
         o, post = mk(el, full + suffix, nm + suffix)
